@@ -1,5 +1,6 @@
 import HpackVerif.Generated.SrcTable
 import HpackVerif.Proofs.SrcTieInt
+import HpackVerif.Impl.EncModel
 /-! The hand-written model of `HeaderTable` (`Impl.Table`: `getByIndex`, `add`, `shrink`, `setMaxsize`) equals the
 mechanical translation of `src/hpack/table.py` (`Generated/SrcTable.lean`), through the abstraction `absT`
 (the model's entries carry an ownership tag on each string, the Python object does not). -/
@@ -224,5 +225,156 @@ theorem get_by_index_tie (t : Impl.Table) (index : Nat) (fuel : Nat) :
         have hnone : t.entries[index - 1 - Gen.staticTable.length]? = none := List.getElem?_eq_none (by omega)
         simp only [hnone]
         exact hfail
+
+/-! ### `HeaderTable.search` -/
+
+set_option maxRecDepth 100000 in
+theorem map_eq : Gen.staticMapping = Impl.staticMapping := by decide +kernel
+
+/-- the model's search result read as the Python tuple `(index, name, value or None)` -/
+def castRes (name value : Bytes) (r : Option (Nat × Bool)) : Option (Int × Bytes × Option Bytes) :=
+  r.map fun p => ((p.1 : Int), name, if p.2 then some value else none)
+
+/-- a pending partial match is never a perfect one -/
+def PartialOK (pm : Option (Nat × Bool)) : Prop := ∀ p, pm = some p → p.2 = false
+
+theorem search_for1_tie (fuel : Nat) (self : Src.HeaderTable) (name value : Bytes) (off : Nat) :
+    ∀ (ents : List Impl.Entry) (idx : Nat) (pm : Option (Nat × Bool)), PartialOK pm →
+      (Src.HeaderTable.search.for1 fuel (ents.map proj) (idx : Int) self name value (castRes name value pm) (off : Int) >>= fun fl =>
+        match fl with
+        | .ret r => (.ok r : Py.RS Src.HeaderTable _)
+        | .next p => .ok (self, p)) =
+      .ok (self, castRes name value (Impl.searchDyn name value ents (idx + off) pm)) := by
+  intro ents
+  induction ents with
+  | nil => intro idx pm _; rfl
+  | cons e rest ih =>
+    intro idx pm hpm
+    obtain ⟨n, v⟩ := e
+    simp only [List.map_cons, proj, Src.HeaderTable.search.for1, Impl.searchDyn]
+    by_cases hn : n.bytes = name
+    · simp only [hn, if_true]
+      by_cases hv : v.bytes = value
+      · simp [hv, castRes, bind, Except.bind, Int.natCast_add]
+      · simp only [hv, if_false]
+        have hidx : (idx : Int) + 1 = ((idx + 1 : Nat) : Int) := by omega
+        cases pm with
+        | none =>
+          have h1 : castRes name value (none : Option (Nat × Bool)) = none := rfl
+          simp only [h1, if_true, Option.isNone_none]
+          have h2 : (some (((idx : Int) + (off : Int)), name, (none : Option Bytes))) = castRes name value (some (idx + off, false)) := by
+            simp [castRes, Int.natCast_add]
+          rw [hidx, h2]
+          have := ih (idx + 1) (some (idx + off, false)) (by intro p hp; cases hp; rfl)
+          rw [show idx + 1 + off = idx + off + 1 by omega] at this
+          exact this
+        | some p =>
+          have hp2 : p.2 = false := hpm p rfl
+          have h1 : castRes name value (some p) ≠ none := by simp [castRes]
+          simp only [h1, if_false, Option.isNone_some, Bool.false_eq_true]
+          rw [hidx]
+          have := ih (idx + 1) (some p) hpm
+          rw [show idx + 1 + off = idx + off + 1 by omega] at this
+          exact this
+    · simp only [hn, if_false]
+      have hidx : (idx : Int) + 1 = ((idx + 1 : Nat) : Int) := by omega
+      rw [hidx]
+      have := ih (idx + 1) pm hpm
+      rw [show idx + 1 + off = idx + off + 1 by omega] at this
+      exact this
+
+theorem search_for2_tie (fuel : Nat) (self : Src.HeaderTable) (name value : Bytes) (off : Nat) :
+    ∀ (ents : List Impl.Entry) (idx : Nat) (pm : Option (Nat × Bool)), PartialOK pm →
+      (Src.HeaderTable.search.for2 fuel (ents.map proj) (idx : Int) self name value (castRes name value pm) (off : Int) >>= fun fl =>
+        match fl with
+        | .ret r => (.ok r : Py.RS Src.HeaderTable _)
+        | .next p => .ok (self, p)) =
+      .ok (self, castRes name value (Impl.searchDyn name value ents (idx + off) pm)) := by
+  intro ents
+  induction ents with
+  | nil => intro idx pm _; rfl
+  | cons e rest ih =>
+    intro idx pm hpm
+    obtain ⟨n, v⟩ := e
+    simp only [List.map_cons, proj, Src.HeaderTable.search.for2, Impl.searchDyn]
+    by_cases hn : n.bytes = name
+    · simp only [hn, if_true]
+      by_cases hv : v.bytes = value
+      · simp [hv, castRes, bind, Except.bind, Int.natCast_add]
+      · simp only [hv, if_false]
+        have hidx : (idx : Int) + 1 = ((idx + 1 : Nat) : Int) := by omega
+        cases pm with
+        | none =>
+          have h1 : castRes name value (none : Option (Nat × Bool)) = none := rfl
+          simp only [h1, if_true, Option.isNone_none]
+          have h2 : (some (((idx : Int) + (off : Int)), name, (none : Option Bytes))) = castRes name value (some (idx + off, false)) := by
+            simp [castRes, Int.natCast_add]
+          rw [hidx, h2]
+          have := ih (idx + 1) (some (idx + off, false)) (by intro p hp; cases hp; rfl)
+          rw [show idx + 1 + off = idx + off + 1 by omega] at this
+          exact this
+        | some p =>
+          have hp2 : p.2 = false := hpm p rfl
+          have h1 : castRes name value (some p) ≠ none := by simp [castRes]
+          simp only [h1, if_false, Option.isNone_some, Bool.false_eq_true]
+          rw [hidx]
+          have := ih (idx + 1) (some p) hpm
+          rw [show idx + 1 + off = idx + off + 1 by omega] at this
+          exact this
+    · simp only [hn, if_false]
+      have hidx : (idx : Int) + 1 = ((idx + 1 : Nat) : Int) := by omega
+      rw [hidx]
+      have := ih (idx + 1) pm hpm
+      rw [show idx + 1 + off = idx + off + 1 by omega] at this
+      exact this
+
+def castV (v : Nat × List (Bytes × Nat)) : Int × List (Bytes × Int) := ((v.1 : Int), v.2.map fun p => (p.1, (p.2 : Int)))
+
+theorem assocGet_find {β γ} (m : List (Bytes × β)) (f : β → γ) (key : Bytes) :
+    Py.assocGet (m.map fun e => (e.1, f e.2)) key = (m.find? (·.1 = key)).map fun e => f e.2 := by
+  induction m with
+  | nil => rfl
+  | cons e rest ih =>
+    simp only [List.map_cons, Py.assocGet, List.find?_cons]
+    by_cases h : e.1 = key
+    · simp [h]
+    · simp [h, ih]
+
+/-- **`HeaderTable.search`**: translated method = `Impl.Table.search` — the static mapping first (a full match there wins,
+a name match is kept as the fallback), then the dynamic entries newest first (the first full match wins, the first name
+match is kept only if there is no fallback yet); the object is not changed -/
+theorem search_tie (t : Impl.Table) (name value : Bytes) (fuel : Nat) :
+    Src.HeaderTable.search fuel (absT t) name value = .ok (absT t, castRes name value (t.search name value)) := by
+  unfold Src.HeaderTable.search Impl.Table.search
+  have hm : Src.c_HeaderTable_STATIC_TABLE_MAPPING = Impl.staticMapping.map fun e => (e.1, castV e.2) := by
+    unfold Src.c_HeaderTable_STATIC_TABLE_MAPPING; rw [map_eq]; rfl
+  rw [hm, assocGet_find Impl.staticMapping castV name]
+  have hoff : Src.c_HeaderTable_STATIC_TABLE_LENGTH + 1 = ((Gen.staticTable.length + 1 : Nat) : Int) := by
+    rw [static_length]; omega
+  cases hf : Impl.staticMapping.find? (·.1 = name) with
+  | none =>
+    simp only [Option.map_none]
+    rw [hoff]
+    have := search_for2_tie fuel (absT t) name value (Gen.staticTable.length + 1) t.entries 0 none (by intro p hp; cases hp)
+    simp only [Nat.zero_add, castRes, Option.map_none] at this
+    exact this
+  | some e =>
+    obtain ⟨nm, first, vals⟩ := e
+    simp only [Option.map_some, castV]
+    have hv : Py.assocGet (vals.map fun p => (p.1, (p.2 : Int))) value = (vals.find? (·.1 = value)).map fun p => (p.2 : Int) :=
+      assocGet_find vals (fun (x : Nat) => (x : Int)) value
+    rw [hv]
+    cases hf2 : vals.find? (·.1 = value) with
+    | some p =>
+      obtain ⟨vv, idx⟩ := p
+      simp [castRes]
+    | none =>
+      simp only [Option.map_none]
+      rw [hoff]
+      have := search_for1_tie fuel (absT t) name value (Gen.staticTable.length + 1) t.entries 0 (some (first, false)) (by intro p hp; cases hp; rfl)
+      simp only [Nat.zero_add] at this
+      have hc : castRes name value (some (first, false)) = some ((first : Int), name, (none : Option Bytes)) := by simp [castRes]
+      rw [hc] at this
+      exact this
 
 end SrcTie
